@@ -207,4 +207,14 @@ var translatorShapes = []string{
 	"match (a)-[:E]->(b) where (a)-[:E]->(b) return a",
 	"match p = (a)-[r]->(b) where (b)-[:E]->(:K) return p",
 	"match p = (a)-[:E*1..]->(b) where not (b)-[:E]->() return p",
+	// expansions (also with depth 0) that start from a node carried over from an earlier step or part, their far end compared
+	// with bindings of earlier frames
+	"match (a)-[r:E]->(b)-[:E*0..]->(c) where c.name = a.name return c",
+	"match (a)-[r:E]->(b)-[:E*1..]->(c) where c.name = a.name return c",
+	"match (a:K)-[r:E]->(b)-[:E*0..3]->(c:K) where c.name = a.name and c.v = b.v return a, c",
+	"match (a) with a match (a)-[:E*0..]->(c) where c.name = a.name return c",
+	"match (a)-[:E]->(b) with a, b match (b)-[:E*0..2]->(c) where c.v = a.v and c.w = b.w return c",
+	"match (a:K)-[:E*0..]->(b)-[:E*0..]->(c) where c.name = a.name return c",
+	"match (a)-[:E*0..]->(b) where b.name = a.name return b",
+	"match (a)<-[:E*0..]-(b)-[:E]->(c) where a.name = c.name return a",
 }
